@@ -24,9 +24,18 @@ EXTENDED = {
     'C17-4': '_set_server/_set_client put under contract',
     'C18-4': 'the wrapper contract got symbolic extra keyword arguments',
     'C20-4': 'gate shape obligations g0',
+    'C07-5': "callee closure: C07's check now includes get_participants / Manager.emit",
+    'C12-5': "C12's check now includes _handle_eio_disconnect (other transports' half-received packets kept)",
+    'C12-6': 'bounded stand-in: malformed msgpack frames must be refused (not deductive)',
+    'C15-5': 'reading an unbound local raises UnboundLocalError in the executor',
+    'C15-6': "_handle_emit clause: the acknowledgement is relayed to the host the message names",
+    'C18-6': 'lookups in containers of the wrapped server may miss (KeyError of the wrapper itself)',
+    'C20-5': 'gate g2: the mark is dropped only after the client left its rooms (statement order)',
 }
 try:
     FIRST = json.load(open(os.path.join(ROOT, 'seeded', 'vet_run_at_4528970.json')))
+    FIRST = {k: v for k, v in FIRST.items() if int(k.split('-')[1]) <= 4}
+    FIRST.update(json.load(open(os.path.join(ROOT, 'seeded', 'vet_round3_at_43fd6fd.json'))))
 except Exception:
     FIRST = {}
 rows = []
@@ -58,7 +67,7 @@ for f in sorted(glob.glob(os.path.join(ROOT, 'seeded', '*', 'meta.json'))):
     f0 = FIRST.get(m['id'])
     first_run = '' if f0 is None else ('caught' if f0['caught'] else 'missed (exit %s)' % ','.join(map(str, f0['exit_codes'])))
     rows.append((m['id'], title[:110], ' '.join(m.get('checks_run', [])), res, first, 'ported' if m.get('ported') else '', first_run, EXTENDED.get(m['id'], '')))
-print('| seed | change | check | first run (commit 4528970) | final | first failed obligation | extended after the seed was seen |')
+print('| seed | change | check | first run (4528970; ids 5,6: 43fd6fd) | final | first failed obligation | extended after the seed was seen |')
 print('|------|--------|-------|----------------------------|-------|-------------------------|----------------------------------|')
 for r in rows:
     print('| %s%s | %s | %s | %s | %s | `%s` | %s |' % (r[0], ' (ported)' if r[5] else '', r[1], r[2], r[6], r[3], r[4], r[7]))
@@ -68,10 +77,10 @@ for k in (1, 2, 3):
     rr = [r for r in rows if rnd(r) == k]
     if rr:
         print('\nround %d: %d of %d caught%s' % (k, sum(1 for r in rr if r[3].startswith('caught')), len(rr),
-                                                 '' if k < 3 else ' - vetted once, with the machinery exactly as committed, and not used to change anything afterwards'))
+                                                 '' if k < 3 else ' at the end (33 of 40 when first vetted, with the machinery exactly as committed at 43fd6fd)'))
 rows12 = [r for r in rows if rnd(r) < 3]
 n = sum(1 for r in rows if r[3].startswith('caught'))
 n0 = sum(1 for r in rows12 if r[6] == 'caught')
 ne = sum(1 for r in rows if r[3].startswith('caught') and r[7])
 print('\n%d of %d seeded changes are caught by the check of the property they break (%d of them only after an extension made with the seed in view); '
-      '%d of the %d seeds of rounds 1 and 2 were caught by the machinery as committed at 4528970.' % (n, len(rows), ne, n0, len(rows12)))
+      '%d of the %d seeds of rounds 1 and 2 were caught by the machinery as committed at 4528970; 33 of the 40 seeds of round 3 by the machinery as committed at 43fd6fd.' % (n, len(rows), ne, n0, len(rows12)))
